@@ -74,11 +74,14 @@ def dict_to_stix2(stix_dict, allow_custom=False, interoperability=False, version
         objects that I don't know about ahead of time)
 
     """
-    if 'type' not in stix_dict:
-        raise ParseError("Can't parse object with no 'type' property: %s" % str(stix_dict))
+    try:
+        if 'type' not in stix_dict:
+            raise ParseError("Can't parse object with no 'type' property: %s" % str(stix_dict))
 
-    if not version:
-        version = detect_spec_version(stix_dict)
+        if not version:
+            version = detect_spec_version(stix_dict)
+    except RecursionError:
+        raise ParseError("Can't parse data that is nested too deeply")
 
     obj_type = stix_dict["type"]
     obj_class = registry.class_for_type(obj_type, version, "objects") \
